@@ -191,6 +191,18 @@ def build_reps(ir, onnx, serde, code, shape, pats, ref_bytes, tmpdir, case, clea
         yield "tensor_strided_view", ir.Tensor(big[..., ::2], dtype=dtype, name="t"), {"layout": True}
     if b in (2, 4):
         yield "packed", ir.PackedTensor(np.frombuffer(ref_bytes, dtype=np.uint8).copy(), dtype, shape=shape, name="t"), {}
+        # the packed bytes in other array shapes / memory layouts (the constructor only asks for the right byte count):
+        # rows x bytes-per-row as a weight packed along its last axis would be, a column, and a strided view
+        pbytes = np.frombuffer(ref_bytes, dtype=np.uint8).copy()
+        nb = len(ref_bytes)
+        if nb >= 2:
+            rows = 2 if nb % 2 == 0 else 1
+            yield "packed_2d", ir.PackedTensor(pbytes.reshape(rows, nb // rows), dtype, shape=shape, name="t"), {"layout": True}
+            yield "packed_column", ir.PackedTensor(pbytes.reshape(nb, 1), dtype, shape=shape, name="t"), {"layout": True}
+        if nb >= 1:
+            wide = np.zeros(nb * 2, dtype=np.uint8)
+            wide[::2] = pbytes
+            yield "packed_strided_view", ir.PackedTensor(wide[::2], dtype, shape=shape, name="t"), {"layout": True}
     praw = onnx.TensorProto(data_type=code, dims=shape, name="t", raw_data=ref_bytes)
     yield "proto_raw", serde.TensorProtoTensor(praw), {}
     yield "proto_typed_" + TYPED_FIELD[code], serde.TensorProtoTensor(_typed_proto(onnx, code, shape, pats, ref_bytes)), {"typed": True}
